@@ -55,6 +55,9 @@ func timerMain(args []string) {
 	em := newEmitter(c.out)
 	defer em.close()
 	r := &rng{s: c.seed}
+	// the local time zone is not UTC and its offset is not a multiple of most of the periods used below (period
+	// boundaries are multiples of the period since the zero time, whatever the zone)
+	time.Local = time.FixedZone("verif+0537", 5*3600+37*60+11)
 	// a Program has run and finished in this process before any of the timer commands below is created (they belong to
 	// no program: what another program did must not matter to them)
 	{
